@@ -6,6 +6,8 @@ Every access of the code goes to an element record (C04: all fields lie inside `
 outside the block" is: every live record, and the record being constructed, ends at or before `bytes`.
 -/
 import Cntgs.FixProofs
+import Cntgs.FitProofs
+import Cntgs.Dec
 import Cntgs.Props.C01
 import Cntgs.Props.C05
 namespace Cntgs.C02
@@ -79,5 +81,63 @@ theorem history_stride_inside (ps : List Param) (fs : List Nat) (N B : Nat) (jun
   have h2 : v.loc.stride * k + v.loc.stride ≤ v.loc.stride * es.length := by
     rw [← Nat.mul_succ]; exact Nat.mul_le_mul_left _ hk
   omega
+
+/-- **Lists with a VaryingSize parameter**: a vector constructed for `N` elements and `B` bytes of varying payload has
+    room for any sequence of at most `N` elements whose varying payloads total at most `B` bytes: element `k` of the
+    canonical layout ends inside the block, for every well-formed parameter list, every alignment combination, all fixed
+    sizes and every distribution of the varying sizes (empty spans included). -/
+theorem fit_offset_table (ps : List Param) (fs : List Nat) (N B : Nat) (junk : Nat → Nat) (hl : ListOK ps)
+    (hvo : VarOK false ps) (es : List Elem) (hm : ∀ e ∈ es, CountsMatch ps fs (elemCounts e))
+    (hN : es.length ≤ N) (hB : varPayload ps es ≤ B) :
+    ∀ k, k < es.length → canonOff ps es k + esz ps (es.getD k []) ≤ (Vec.new ps fs N B junk).bytes :=
+  Cntgs.fit_offset_table ps fs N B hl hvo es hm hN hB
+
+/-- the same room after `reserve(n, b)` beyond the capacity (C10: "the vector can hold n elements with b bytes") -/
+theorem reserve_room (v : Vec) (n b : Nat) (junk : Nat → Nat) (hl : ListOK v.ps) (hnf : v.fixedLoc = false) (hgrow : v.cap < n)
+    (hvo : VarOK false v.ps) (es : List Elem) (hm : ∀ e ∈ es, CountsMatch v.ps v.fs (elemCounts e))
+    (hN : es.length ≤ n) (hB : varPayload v.ps es ≤ b) :
+    ∀ k, k < es.length → canonOff v.ps es k + esz v.ps (es.getD k []) ≤ (v.reserve n b junk).bytes := by
+  have hb : (v.reserve n b junk).bytes = units (needed n b (elemSize v.ps v.fs)) (storageAl v.ps) * storageAl v.ps := by
+    simp only [Vec.reserve, hgrow, if_true, Vec.bytes, Vec.S, Vec.newMemorySize, hnf, Bool.false_eq_true, if_false]
+  rw [hb]
+  exact Cntgs.fit_offset_table v.ps v.fs n b hl hvo es hm hN hB
+
+/-- along every history within capacity and budget: every live element lies inside the block, and
+    `data_end() - data_begin()` never exceeds `memory_consumption()` (offset-table locator) -/
+theorem history_offset_table_inside (ps : List Param) (fs : List Nat) (N B : Nat) (hl : ListOK ps) (hvo : VarOK false ps)
+    (v : Vec) (es : List Elem) (h : VarInv v es) (hps : v.ps = ps)
+    (hm : ∀ e ∈ es, CountsMatch ps fs (elemCounts e)) (hN : es.length ≤ N) (hB : varPayload ps es ≤ B)
+    (hb : units (needed N B (elemSize ps fs)) (storageAl ps) * storageAl ps ≤ v.bytes) (hbd : storageAl ps ∣ v.bytes) :
+    (∀ r ∈ v.mem, r.off + r.sz ≤ v.bytes) ∧ v.dataEnd ≤ v.bytes := by
+  have hfit := Cntgs.fit_offset_table ps fs N B hl hvo es hm hN hB
+  constructor
+  · intro r hr
+    obtain ⟨k, hk, rfl⟩ := (h.mem_eq r).mp hr
+    have := hfit k hk
+    simp only [canonRec, hps]
+    omega
+  · simp only [Vec.dataEnd, h.notFixed, Bool.false_eq_true, if_false]
+    by_cases hne : es = []
+    · rcases h.last_eq with hl' | ⟨hne', _⟩
+      · rw [hl']; simp [rawEndOf, hne]
+      · exact absurd hne hne'
+    · have hlen : 0 < es.length := List.length_pos_iff.mpr hne
+      have hraw : rawEndOf ps es ≤ v.bytes := by
+        have := hfit (es.length - 1) (by omega)
+        simp only [rawEndOf, hne, if_false]; omega
+      rcases h.last_eq with hl' | ⟨_, hl'⟩
+      · rw [hl', hps]; exact hraw
+      · rw [hl', hps, nextOff_eq_alignUp_rawEnd hl es hne]
+        exact alignUp_le_of_dvd (storage_pos hl) hbd hraw
+
+/-! non-vacuity: the list of C01's example (`uint32`, VaryingSize<AlignAs<float,16>>, `uint8`) with three elements of
+    payload 4 + 12 + 8 bytes meets the hypotheses for N = 3, B = 24 -/
+example : VarOK false C01.exPs ∧
+    (∀ e ∈ [[[1], [7], [3]], [[3], [7, 8, 9], [4]], [[2], [5, 6], [1]]], CountsMatch C01.exPs [0, 0, 0] (elemCounts e)) ∧
+    varPayload C01.exPs [[[1], [7], [3]], [[3], [7, 8, 9], [4]], [[2], [5, 6], [1]]] ≤ 24 := by
+  refine ⟨by simp [VarOK, C01.exPs], ?_, by decide⟩
+  intro e he
+  simp only [List.mem_cons, List.mem_nil_iff, or_false] at he
+  rcases he with rfl | rfl | rfl <;> simp [CountsMatch, C01.exPs, elemCounts]
 
 end Cntgs.C02
